@@ -411,3 +411,126 @@ func TestVerifRingSched(t *testing.T) {
 		emit(fmt.Sprintf("rnd%d", i), size, progs, tr, log)
 	}
 }
+
+
+// ---------------------------------------------------------------------------------------------
+// stream "ringfine" (C14, fine granularity): a scheduling point at every mutex attempt, at every atomic add inside a
+// critical section, at every release and at every atomic load. Random schedules; the Lean driver replays the step
+// sequence in the fine-grained model HW.RingConc (acquire / linearize / release / load).
+// ---------------------------------------------------------------------------------------------
+
+func vRunRingFine(size int, progs [][]string, rr *vgen.Rng) (log string, ok bool) {
+	c := vsched.New()
+	c.Fine = true
+	c.Install()
+	defer vsched.Uninstall()
+	rb := New[int](int64(size))
+	results := make([][]string, len(progs))
+	for ti, prog := range progs {
+		ti, prog := ti, prog
+		c.Go(func() {
+			for _, op := range prog {
+				func() {
+					defer func() {
+						if v := recover(); v != nil {
+							results[ti] = append(results[ti], "PANIC")
+						}
+					}()
+					results[ti] = append(results[ti], runRingOp(rb, op))
+				}()
+			}
+		})
+	}
+	c.WaitSettled()
+	var sb strings.Builder
+	steps := 0
+	for ; steps < 2000; steps++ {
+		en := c.Enabled()
+		if len(en) == 0 {
+			break
+		}
+		tid := en[rr.Intn(len(en))]
+		op, res := c.Step(tid)
+		if res != "" {
+			op += "=" + res
+		}
+		fmt.Fprintf(&sb, "t%d:%s;", tid, op)
+	}
+	if len(c.Enabled()) > 0 { // step cap reached (a thread kept finding the mutex busy): run the rest out, the case is dropped
+		for len(c.Enabled()) > 0 {
+			c.Step(c.Enabled()[0])
+		}
+		return "", false
+	}
+	rs := make([]string, len(results))
+	for i, r := range results {
+		rs[i] = strings.Join(r, ",")
+	}
+	var rest []string
+	for {
+		v, ok := rb.Pop()
+		if !ok {
+			break
+		}
+		rest = append(rest, strconv.Itoa(v))
+		if len(rest) > 64 {
+			rest = append(rest, "UNBOUNDED")
+			break
+		}
+	}
+	fmt.Fprintf(&sb, "end:%s:rest=%s", strings.Join(rs, "|"), strings.Join(rest, "."))
+	return sb.String(), true
+}
+
+func TestVerifRingFine(t *testing.T) {
+	w, err := vgen.NewWriter("ringfine")
+	if err != nil {
+		t.Fatal(err)
+	}
+	defer w.Close()
+	show := func(progs [][]string) string {
+		ss := make([]string, len(progs))
+		for i, p := range progs {
+			ss[i] = strings.Join(p, ".")
+		}
+		return strings.Join(ss, "|")
+	}
+	r := vgen.NewRng(vgen.Seed())
+	n := vgen.Scale(3000, 60000)
+	fixed := [][][]string{
+		{{"o"}, {"l", "l"}},                  // a Pop of an empty ring against two Len calls
+		{{"u1", "o", "o"}, {"l", "o", "l"}},
+		{{"n2"}, {"l"}, {"u1"}},
+	}
+	for i := 0; i < n; i++ {
+		rr := r.Fork()
+		var progs [][]string
+		if i%4 == 0 {
+			progs = fixed[(i/4)%len(fixed)]
+		} else {
+			nt := 2 + rr.Intn(2)
+			x := 0
+			for ti := 0; ti < nt; ti++ {
+				var p []string
+				for j := 0; j < 1+rr.Intn(3); j++ {
+					switch rr.Intn(5) {
+					case 0, 1:
+						x++
+						p = append(p, "u"+strconv.Itoa(x))
+					case 2:
+						p = append(p, "o")
+					case 3:
+						p = append(p, "n"+strconv.Itoa(1+rr.Intn(3)))
+					default:
+						p = append(p, "l")
+					}
+				}
+				progs = append(progs, p)
+			}
+		}
+		size := 1 + rr.Intn(3)
+		if log, ok := vRunRingFine(size, progs, rr); ok {
+			w.Case(fmt.Sprintf("f%d", i), fmt.Sprintf("size=%d progs=%s", size, show(progs)), log)
+		}
+	}
+}
